@@ -613,6 +613,10 @@ bool ct_eq(fields lhs, fields rhs) __CPROVER_ensures(RV == (FIELDS_EQ(lhs, rhs) 
 bool ct_ne(fields lhs, fields rhs) __CPROVER_ensures(RV == (FIELDS_EQ(lhs, rhs) ? 0 : 1)) __CPROVER_assigns();
 
 /* ---- C17: weekday, day of year, next/prev weekday ---- */
+/* weekday number (0 = Monday) of a day ordinal, as an opaque symbol; 1970-01-01 (ordinal 719528) is a Thursday (3) */
+int __CPROVER_uninterpreted_wday(Z ord);
+#define WDAY(ord) __CPROVER_uninterpreted_wday(ord)
+#define REVEAL_WDAY(ord) __CPROVER_assume((Z)WDAY(ord) == WD(ord))
 /* reduction of an ordinal to the 400-year cycle */
 #define lemma_ord_reduce_REQ(y, m, d) (1 <= (m) && (m) <= 12 && 1 <= (d) && (d) <= 31)
 #define lemma_ord_reduce_ENS(y, m, d) (ORD(y, m, d) == ORD((Z)((y) % 400), m, d) + (Z)146097 * (Z)((y) / 400) && \
@@ -622,20 +626,20 @@ bool ct_ne(fields lhs, fields rhs) __CPROVER_ensures(RV == (FIELDS_EQ(lhs, rhs) 
 #define lemma_fd7shift_ENS(x, k, c) (FD((Z)((x) + (Z)146097 * (k)) + (c), 7) == FD((Z)(x) + (c), 7) + 20871 * (k))
 #define lemma_wd_period_REQ(x, k) (ZB(x, 100) && ZB(k, 60))
 #define lemma_wd_period_ENS(x, k) (WD((x) + (Z)146097 * (k)) == WD(x))
-/* moving c days moves the weekday by c (0 <= c <= 13) */
-#define lemma_wd_add_REQ(x, c) (ZB(x, 100) && 0 <= (c) && (c) <= 13)
-#define lemma_wd_add_ENS(x, c) (WD((Z)(x) + (c)) == FM(WD(x) + (c), 7) && WD((Z)(x) - (c)) == FM(WD(x) - (c), 7))
 #define lemma_wd_cong_REQ(a, b) ((Z)(a) == (Z)(b))
 #define lemma_wd_cong_ENS(a, b) (WD(a) == WD(b))
+/* moving c days moves the weekday by c (0 <= c <= 13); stated on the opaque symbol */
+#define lemma_wd_add_REQ(x, c) (ZB(x, 100) && 0 <= (c) && (c) <= 13)
+#define lemma_wd_add_ENS(x, c) (WDAY((Z)(x) + (c)) == FM(WDAY(x) + (c), 7) && WDAY((Z)(x) - (c)) == FM(WDAY(x) - (c), 7) && 0 <= WDAY(x) && WDAY(x) <= 6)
 
 weekday get_weekday(fields cs)
 __CPROVER_requires(OVALID(cs))
-__CPROVER_ensures((Z)(int)RV == WD(ORD(cs.y, cs.m, cs.d)))
+__CPROVER_ensures((int)RV == WDAY(ODAY(cs)) && 0 <= (int)RV && (int)RV <= 6)
 __CPROVER_assigns();
 
 int get_yearday(fields cs)
 __CPROVER_requires(OVALID(cs))
-__CPROVER_ensures((Z)RV == ORD(cs.y, cs.m, cs.d) - ORD(cs.y, 1, 1) + 1)
+__CPROVER_ensures((Z)RV == ODAY(cs) - DAYORD(cs.y, 1, 1) + 1)
 __CPROVER_ensures(1 <= RV && RV <= 365 + (LEAP(cs.y) ? 1 : 0))
 __CPROVER_assigns();
 
@@ -643,14 +647,14 @@ fields next_weekday(fields cd, weekday wd)
 __CPROVER_requires(OVALID(cd) && ALIGNED_day(cd) && 0 <= (int)wd && (int)wd <= 6 && REPR_day(ODAY(cd) + 7))
 __CPROVER_ensures(OVALID(RV) && ALIGNED_day(RV))
 __CPROVER_ensures(1 <= ODAY(RV) - ODAY(cd) && ODAY(RV) - ODAY(cd) <= 7)
-__CPROVER_ensures(WD(ODAY(RV)) == (Z)(int)wd)
+__CPROVER_ensures(WDAY(ODAY(RV)) == (int)wd)
 __CPROVER_assigns();
 
 fields prev_weekday(fields cd, weekday wd)
 __CPROVER_requires(OVALID(cd) && ALIGNED_day(cd) && 0 <= (int)wd && (int)wd <= 6 && REPR_day(ODAY(cd) - 7))
 __CPROVER_ensures(OVALID(RV) && ALIGNED_day(RV))
 __CPROVER_ensures(1 <= ODAY(cd) - ODAY(RV) && ODAY(cd) - ODAY(RV) <= 7)
-__CPROVER_ensures(WD(ODAY(RV)) == (Z)(int)wd)
+__CPROVER_ensures(WDAY(ODAY(RV)) == (int)wd)
 __CPROVER_assigns();
 
 #pragma CPROVER check pop
